@@ -189,7 +189,7 @@ class DecimalConverter(NullConverter):
             # All ·minimally conforming· processors ·must· support decimal numbers with a minimum of
             # 18 decimal digits (i.e., with a ·totalDigits· of 18).
             head, tail = xml_value.split('.')
-            tail = tail[:18 - len(head)]
+            tail = tail[:18 - len(head.lstrip('-').lstrip('0'))]  # sign and a leading zero are not digits
             if tail:
                 xml_value = f'{head}.{tail}'
             else:
